@@ -183,6 +183,10 @@ class BGP(protocol.Protocol):
         """
         buf = self._receive_buffer
 
+        if self.disconnected:
+            # we have closed the connection, what follows is not processed
+            return False
+
         if len(buf) < bgp_cons.HDR_LEN:
             # Every BGP message is at least 19 octets. Maybe the rest
             # hasn't arrived yet.
